@@ -341,6 +341,11 @@ where
             self.storage()
                 .replace_group_relays(&mls_group_id, welcome_preview.nostr_group_data.relays)
                 .map_err(|e| Error::Group(e.to_string()))?;
+
+            // The stored record may stem from a different welcome for the same group (the last one
+            // processed, e.g. an invitation from a competing branch): make it mirror the MLS group
+            // that was actually joined.
+            self.sync_group_metadata_from_mls(&mls_group_id)?;
         }
 
         Ok(())
